@@ -647,6 +647,8 @@ public final class Driver {
         return ev;
     }
 
+    static final Map<String, Object> LAST = new java.util.HashMap<>();
+
     Map<String, Object> dec(Map<String, Object> op, String kind) {
         Map<String, Object> ev = new LinkedHashMap<>();
         ev.put("ev", kind);
@@ -664,7 +666,10 @@ public final class Driver {
         Map<String, Object> pk;
         try {
             pk = pkt(str(op, "pkt"));
-            inst = newInstance(cls(str(pk, "name"), null));
+            // "reuse": decode into the object the previous dec op of this packet used, otherwise into a fresh one
+            Object prev = LAST.get(str(pk, "name"));
+            inst = (Boolean.TRUE.equals(op.get("reuse")) && prev != null) ? prev : newInstance(cls(str(pk, "name"), null));
+            LAST.put(str(pk, "name"), inst);
             ByteBuf.TRACE.clear();
             call(inst, "decode", buf);
         } catch (MemberMismatch e) {
